@@ -276,10 +276,22 @@ def run_model(res, spec):
         # cannot interpret it and says so instead of guessing
         res.note("variable-layout-not-recognised")
         return
-    start_idx = [2 * o for o in range(ref.N)]
-    end_idx = [2 * o + 1 for o in range(ref.N)]
-    mk_idx = 2 * ref.N
-    if not all(names[i].startswith("start") for i in start_idx) or not names[mk_idx].startswith("makespan"):
+    # (the ORDER in which a model creates its variables is its own business: a
+    # model built machine by machine is as good as one built job by job)
+    import re
+
+    start_idx, end_idx, mk_idx = [None] * ref.N, [None] * ref.N, None
+    for i, nm in enumerate(names):
+        m = re.search(r"j=(\d+), p=(\d+)", nm)
+        if nm.startswith("makespan"):
+            mk_idx = i
+        elif m and (int(m.group(1)), int(m.group(2))) in ref.op_id:
+            o = ref.op_id[(int(m.group(1)), int(m.group(2)))]
+            if nm.startswith("start") and start_idx[o] is None:
+                start_idx[o] = i
+            elif nm.startswith("end") and end_idx[o] is None:
+                end_idx[o] = i
+    if mk_idx is None or None in start_idx or None in end_idx:
         res.note("variable-layout-not-recognised")
         return
     doms = [list(v.domain) for v in proto.variables]
